@@ -1062,7 +1062,7 @@ namespace c14
                     res = showb(got);
                     // the C string is the contents up to its first NUL
                     std::string want = regs[r].ref.substr(0, std::min(regs[r].ref.size(), strlen(regs[r].ref.c_str())));
-                    if (got != want) o.fail("c_str() = " + showb(got.substr(0, 600)) + " (" + std::to_string(got.size()) + " chars) expected " + showb(want.substr(0, 600)) + " (" + std::to_string(want.size()) + " chars)");
+                    if (got != want) o.fail("c_str() = " + showb(got.substr(0, 24)) + " (" + std::to_string(got.size()) + " chars) expected " + showb(want.substr(0, 24)) + " (" + std::to_string(want.size()) + " chars)");
                     if (regs[r].ref.size() == N) o.tag("cstr-full");
                 }
             }
@@ -1133,8 +1133,11 @@ namespace c14
                 for (size_t i = 0; i < sz; i++) got.push_back(s[i]);
                 st += std::to_string(s.size()) + "/" + std::to_string(s.room()) + ":" + showb(got);
                 if (got != regs[q].ref || s.size() != regs[q].ref.size())
-                    o.fail("string " + std::to_string(q) + " is " + showb(got.substr(0, 600)) + " (size " + std::to_string(s.size()) + ") expected " + showb(regs[q].ref.substr(0, 600)) + " (size " + std::to_string(regs[q].ref.size()) + ")");
+                    o.fail("string " + std::to_string(q) + " is " + showb(got.substr(0, 24)) + " (size " + std::to_string(s.size()) + ") expected " + showb(regs[q].ref.substr(0, 24)) + " (size " + std::to_string(regs[q].ref.size()) + ")");
                 if ((size_t)(s.end() - s.begin()) != s.size()) o.fail("end()-begin()");
+                if ((const void *)s.begin() != (const void *)&s[0]) o.fail("begin() is not &s[0]");
+                if constexpr (port)
+                    if ((const void *)s.data() != (const void *)&s[0]) o.fail("data() is not &s[0]");
                 if (!regs[q].place->intact()) o.fail("canary around string " + std::to_string(q) + " overwritten");
             }
             o.result = res + " | " + st;
